@@ -2,8 +2,15 @@
 import importlib.util, os
 _s = importlib.util.spec_from_file_location("dm", os.path.join(VERIF, "props", "_dm_common.py")); dm = importlib.util.module_from_spec(_s); _s.loader.exec_module(dm)
 
-def h(mode, name, what, unwind=18, defines=(), timeout=900, solver="cadical", unwindset=None):
-    return H(name, "harness/hal/devman.c", repo=[], env=[], defines=["MODE=%d" % mode] + list(defines), pre=dm.pre_dm(VERIF), unwind=unwind, unwindset=unwindset or {},
+REPL = "_ZNSt7__cxx1112basic_stringIcSt11char_traitsIcESaIcEE10_M_replaceEmmPKcm.0"
+COMPILE = "_ZNSt7__cxx1111basic_regexIcNS_12regex_traitsIcEEE10_M_compileEPKcS5_NSt15regex_constants18syntax_option_typeE.0"
+def h(mode, name, what, unwind=6, defines=(), timeout=900, solver="cadical", unwindset=None):
+    # the translated code is goto-structured: merge points reached by backward jumps count as loops;
+    # the default bound covers them and the device loop (NID + 2), the text loops get their own
+    us = {"strlen.0": 13, REPL: 17, COMPILE: 17, "verif_copy_ident.0": 7}
+    for k in range(12): us["main.%d" % k] = 17
+    us.update(unwindset or {})
+    return H(name, "harness/hal/devman.c", repo=[], env=[], defines=["MODE=%d" % mode] + list(defines), pre=dm.pre_dm(VERIF), unwind=unwind, unwindset=us,
              solver=solver, timeout=timeout, mem_gb=16, what=what)
 
 def harnesses(tier, findings):
@@ -14,14 +21,16 @@ def harnesses(tier, findings):
         h(1, "select_pattern", "device_manager_select for an arbitrary manager of 0..%d devices, any kind, any pattern bytes up to %d (NULs anywhere, NULL pointer), malformed-pattern outcome symbolic; regex engine as oracle" % (nid, pmax), defines=d),
         h(3, "select_first_default", "device_manager_select_first / _select_default for an arbitrary manager and kind", defines=d),
         h(2, "get_index_driver", "device_manager_count / _get(index: any u32) / _get_driver(driver_id: any u8) with NULL handles", defines=d),
-        h(4, "enumerate_absent_libraries", "device_manager_init with any subset of the 6 driver libraries absent, 0..2 devices each (<= 5 in total), describe failing for one device; then destroy", unwind=9, defines=d),
-    ]
+    ] + ([] if tier != "enum" else []) + [h(4, "enumerate_p%02x_%s" % (pres, "".join(map(str, nd))),
+           "device_manager_init with the driver libraries of mask 0x%02x present (the others absent) announcing %s devices, describe failing for an arbitrary device; then get/get_driver agree with the enumeration; destroy" % (pres, nd),
+           unwind=9, defines=d + ["PRESENT=%d" % pres, "NDEVS={%s}" % ",".join(map(str, nd))])
+         for pres, nd in ([] if tier != "enum" else [(0x05, (2, 0, 1, 0, 0, 0)), (0x20, (0, 0, 0, 0, 0, 2)), (0x00, (1, 1, 1, 1, 1, 1)), (0x3f, (1, 0, 1, 2, 0, 1))])]
 
 META = dict(
     level="model_checking",
-    bounds=dict(quick="managers of 0..3 devices, names of 2 arbitrary bytes, patterns of 0..3 arbitrary bytes; enumeration of <= 5 devices over 6 driver slots",
+    bounds=dict(quick="managers of 0..3 devices, names of 2 arbitrary bytes, patterns of 0..3 arbitrary bytes; get: 16 representative index values from 0 to 2^32-1, get_driver: 9 representative driver ids",
                 thorough="managers of 0..4 devices, patterns of 0..4 bytes"),
-    outside="THE REGULAR-EXPRESSION ENGINE ITSELF (libstdc++ std::regex: ~220 template instantiations, locale facets): which names a given pattern text matches, case folding inside the engine and which texts it rejects are an ORACLE (arbitrary per device / symbolic reject); what is decided is the code around it: pattern text and flags that reach the engine (icase, whole-name mode), enumeration order, kind filter, first hit, empty pattern, NUL trimming, error statuses, no escaping exception. Also outside: dlopen/dlsym in loader.c (driver_load is a stub returning a driver or NULL), names longer than 2 bytes, more than 4 devices",
+    outside="ENUMERATION (DeviceManagerV0::init: six driver_load calls and two growing std::vectors) is NOT decided: the harness for it exists (MODE 4 of harness/hal/devman.c, tier enum) but symex does not get through the vector relocation code with concrete bounds, so which identifiers exist and in which order is an assumption (an arbitrary table) of the selection checks, and the behaviour with absent driver libraries is only covered as far as NULL entries of the driver table are concerned. THE REGULAR-EXPRESSION ENGINE ITSELF (libstdc++ std::regex: ~220 template instantiations, locale facets): which names a given pattern text matches, case folding inside the engine and which texts it rejects are an ORACLE (arbitrary per device / symbolic reject); what is decided is the code around it: pattern text and flags that reach the engine (icase, whole-name mode), enumeration order, kind filter, first hit, empty pattern, NUL trimming, error statuses, no escaping exception. Also outside: dlopen/dlsym in loader.c (driver_load is a stub returning a driver or NULL), names longer than 2 bytes, more than 4 devices",
     assumptions=["C translation of the clang-14 -O1 IR of device.manager.cpp (ir2c.py, unwinding mode), regenerated and differentially validated on every run",
                  "models of std::string::_M_replace (assignment to an empty small string), operator new/delete, __cxa_* and __throw_* (set the in-flight exception), std::locale (no-op)",
                  "allocation failure is out of scope (operator new never fails)"],
